@@ -924,6 +924,7 @@ JANET_CORE_FN(cfun_stream_send_to,
               "Writes a datagram to a server stream. dest is a the destination address of the packet. "
               "Takes an optional timeout in seconds, after which will raise an error. "
               "Returns stream.") {
+    janet_sandbox_assert(JANET_SANDBOX_NET_CONNECT);
     janet_arity(argc, 3, 4);
     JanetStream *stream = janet_getabstract(argv, 0, &janet_stream_type);
     janet_stream_flags(stream, JANET_STREAM_UDPSERVER | JANET_STREAM_SOCKET);
